@@ -59,11 +59,22 @@ func genSupCase(r *simkit.Rand, tier string, intensityStudy bool) *SupCase {
 			// 32-bit millisecond boundaries included
 			c.Period = simkit.Pick(r, 30, 60, 65, 66, 67, 100, 131, 300, 1000, 3600, 65535)
 		}
+		if r.Chance(0.15) {
+			// one of the two left at its default
+			if r.Bool() {
+				c.Intensity = 0
+			} else {
+				c.Period = 0
+			}
+		}
 		c.NoAutoStop = true
 		for i := range c.Significant {
 			c.Significant[i] = false
 		}
 		ne = r.Range(c.Intensity+1, 3*c.Intensity+4)
+		if c.Intensity == 0 {
+			ne = r.Range(6, 19)
+		}
 	}
 	if c.Type == "sofo" {
 		for i, n := 0, r.Range(1, 3); i < n; i++ {
@@ -87,8 +98,14 @@ func genSupCase(r *simkit.Rand, tier string, intensityStudy bool) *SupCase {
 				ev.Kind = simkit.Pick(r, "disable", "enable")
 			}
 			// bursts, bursts separated by about a period, slow drips
-			per := c.Period * 1000
-			ev.GapMs = simkit.Pick(r, 1, 3, 17, per/c.Intensity-7, per/c.Intensity+13, per/2+3, per-11, per+19, 2*per+7)
+			per, inten := c.Period*1000, c.Intensity
+			if per == 0 {
+				per = 5000
+			}
+			if inten == 0 {
+				inten = 5
+			}
+			ev.GapMs = simkit.Pick(r, 1, 3, 17, per/inten-7, per/inten+13, per/2+3, per-11, per+19, 2*per+7)
 			if ev.GapMs < 1 {
 				ev.GapMs = 1
 			}
